@@ -72,7 +72,7 @@ func (c *Ctx) ttCondValid() {
 			c.initAtom(),
 			{"policy", func(fa *FnAnalysis, st *State) (bool, bool) {
 				// nil-ness of the loaded vpf slot
-				for _, f := range st.facts {
+				for _, f := range st.factList() {
 					if f.Kind == aNN && f.T.K == "L" && f.T.A.K == "FA" && c.isSlotIdx("vpf", f.T.A.N) {
 						return f.Val, true
 					}
@@ -338,7 +338,7 @@ func (c *Ctx) ttCondString() {
 		rule: "R-TT", fn: "condition.string",
 		atoms: []ttAtom{
 			{"policy", func(fa *FnAnalysis, st *State) (bool, bool) {
-				for _, f := range st.facts {
+				for _, f := range st.factList() {
 					if f.Kind == aNN && f.T.K == "L" && f.T.A.K == "FA" && c.isSlotIdx("rpf", f.T.A.N) {
 						return f.Val, true
 					}
